@@ -25,6 +25,10 @@ OBLIGATIONS = [
      "statement": "after every history each index entry points to an open ServerPeer session of that very peer"},
     {"id": "C06_T2_one", "theorem": "Iora.C06.T2_one_datagram", "kind": "proved",
      "statement": "after every history one admitted datagram of 1..65507 bytes = exactly one data event, whole, on a session of its sender; accept iff unknown"},
+    {"id": "C06_T2_counter", "theorem": "Iora.C06.T2_counter_exact", "kind": "proved",
+     "statement": "after every history sessionsCurrent (what the cap is tested against) = number of open sessions"},
+    {"id": "C06_T2_refused", "theorem": "Iora.C06.T2_refused_exactly", "kind": "proved",
+     "statement": "a non-admitted datagram (unknown peer while a configured cap is reached) changes nothing and produces no event"},
     {"id": "C06_T2_burst", "theorem": "Iora.C06.T2_burst", "kind": "proved",
      "statement": "a whole recvfrom loop: data events = the datagrams, same number/order/bytes, each on a session of its sender"},
     {"id": "C06_T2_client", "theorem": "Iora.C06.T2_client", "kind": "proved",
@@ -37,6 +41,8 @@ OBLIGATIONS = [
      "statement": "any step keeps a -> sid unless it closes sid itself (closing another session never redirects or silences)"},
     {"id": "C06_T3_hist", "theorem": "Iora.C06.T3_history", "kind": "proved",
      "statement": "along any continuation that does not close sid: a -> sid at the end and no accept for a"},
+    {"id": "C06_T3_shutdown", "theorem": "Iora.C06.T3_shutdown_index_empty", "kind": "proved",
+     "statement": "stop()+start() after any history leaves the index empty, for either form (guarded/unconditional) of shutdownDrain's erase"},
     {"id": "C06_T3_F17", "theorem": "Iora.C06.T3_refuted_without_guard", "kind": "proved",
      "statement": "with the unrepaired unconditional erase T3_step is false (4-step witness): the guard is necessary"},
 ]
@@ -45,6 +51,26 @@ HARNESS = "harness/c06_udp.cpp"
 BOUNDARY = [1, 2, 1472, 1473, 8192, 65506, 65507]
 MAXDG = 65507
 NPEERS = 5
+
+
+# body hashes of the mirrored C++ functions at the time the model was reviewed (tree = /repo HEAD + fixes/F17 patch); a difference is
+# reported in the evidence ("mirrored source changed since the model was reviewed"), it is NOT an alarm: the lockstep decides.
+REVIEWED_ANCHORS = {"readFromListener": "0fc1a2b6bcc6b684", "onClient": "6369b4f050f08873", "connectDo": "e39df8c854b7fcfc",
+                    "viaDo": "8dd0f624e79b440d", "sendDo": "394eac844294f72c", "flushListener": "29f73234632388ee",
+                    "writeClient": "1f8857d0c0cc1bd0", "closeNow": "62ca6ab7c0e25b36", "runGc": "0dacf43630d8a35b",
+                    "shutdownDrain": "8a475c343c6acaec", "updateListener": "0f20c0f2a9bff3e5", "updateClient": "b5487b42a89214cd",
+                    "process": "e158fb026fb1d6df"}
+
+
+def anchors_changed(ctx):
+    import re
+    from vlib.core import LEAN
+    try:
+        txt = open(os.path.join(LEAN, "IoraModel", "Gen", "Udp.lean")).read()
+    except OSError:
+        return ["Gen/Udp.lean missing"]
+    cur = dict(re.findall(r'\("(\w+)", "([0-9a-f]{16})"\)', txt))
+    return sorted(k for k in REVIEWED_ANCHORS if cur.get(k) != REVIEWED_ANCHORS[k])
 
 
 class MachineryError(Exception):
@@ -113,9 +139,9 @@ class Sketch:
         return rng.range(1, max(2, self.next_sid + 1))
 
     def any_lid(self, rng):
-        if self.nl and not rng.chance(1, 15):
-            return rng.range(1, self.nl)
-        return rng.choice([0, self.nl + 1, 9])
+        if self.lq and not rng.chance(1, 15):
+            return rng.choice(sorted(self.lq))
+        return rng.choice([0, self.nl + 1, 9, max(1, self.nl)])
 
 
 def script(rng, n):
@@ -228,10 +254,16 @@ def gen_case(rng, cat, nops):
             ops.append("cdg %d %s" % (sid, ",".join(rand_payload(rng, big_ok=False) for _ in range(rng.choice([1, 1, 2, 3])))))
         elif k < 97:
             ops.append("adv %d" % rng.choice([1, 999, idle_ms - 1, idle_ms, idle_ms + 1, idle_ms // 2, 2 * idle_ms, 499, 501, 49999, 50001]))
+        elif k < 99 or not rng.chance(1, 2):
+            ops.append("gc")             # the sketch does not follow the clock; stale ids afterwards are fine
         else:
-            ops.append("gc")
-            if cat in ("gc", "mixed"):
-                pass     # the sketch does not follow the clock; stale ids afterwards are fine
+            ops.append("restart")        # stop() + start(): sessions and listeners are gone, id counters go on
+            g.sess.clear(); g.ix.clear(); g.cq.clear()
+            g.lq = {}
+            if rng.chance(2, 3):
+                ops.append("listen")
+                g.nl += 1
+                g.lq[g.nl] = 0
     return {"cat": cat, "ops": ops, "cfg": cfg}
 
 
@@ -468,12 +500,13 @@ def run(ctx: Ctx):
     quick = ctx.tier == "quick"
     ncases = 1500 if quick else 30000
     rng = ctx.rng
-    ctx.translate(["udp"])
+    if ctx.translate(["udp"]):
+        ctx.extra["mirrored_source_changed_since_review"] = anchors_changed(ctx)
     ok_build = ctx.lake_build(MODULES)
     if ok_build:
         ctx.audit(MODULES, OBLIGATIONS)
         if not quick:
-            ctx.leanchecker(MODULES + ["IoraModel.Lemmas.UdpTokens", "IoraModel.Lemmas.UdpEngine", "IoraModel.Model.UdpEngine", "IoraModel.Gen.Udp"])
+            ctx.leanchecker(MODULES + ["IoraModel.Lemmas.UdpTokens", "IoraModel.Lemmas.UdpCount", "IoraModel.Lemmas.UdpEngine", "IoraModel.Model.UdpEngine", "IoraModel.Gen.Udp"])
     else:
         ctx.cov["obligations"] = len(OBLIGATIONS)
     hb = ctx.build_harness(HARNESS, sanitize=True)
@@ -525,6 +558,13 @@ def run(ctx: Ctx):
                                   % (c["ops"][i][:120], a[:160], b[:160]),
                                   {"broken": {"correspondence": "udp lockstep (harness/c06_udp.cpp vs Model/UdpEngine.lean)", "detail": "first differing op index %d" % i},
                                    "ops": c["ops"], "observed": impl, "expected_by_model": model, "cfg": c.get("cfg", {})}, found_input=False)
+    if hb:
+        # interposer fire counts (stderr of the harness) on a fixed sample: corpus + boundary cases
+        sample_ops = [o for c in (load_corpus() + boundary_cases(rng.fork("boundary")))[:12] for o in c["ops"]]
+        _, _, err = ctx.run_lines([hb], sample_ops, timeout=300)
+        for l in err.splitlines():
+            if l.startswith("interposers:"):
+                ctx.extra["interposer_counts_on_corpus_and_boundary_sample"] = dict(kv.split("=") for kv in l.split()[1:])
     ctx.extra["input_distribution"] = {"categories": dist, "ops": opdist, "payload_sizes": sizes, "events_seen": evdist}
     ctx.extra["repo_tree_sha"] = ctx.repo_tree_sha(ANCHOR_FILES)
     ctx.extra["not_proved"] = NOT_PROVED
@@ -533,7 +573,15 @@ def run(ctx: Ctx):
                       "non-trivial = at least one accept, data or sent-datagram event")
 
 
-NOT_PROVED = []
+NOT_PROVED = [
+    "by design, not a defect: with a CONFIGURED maxSessions cap reached (default: no cap, pinned by G3) a datagram from an UNKNOWN peer is dropped without any event; "
+    "T2 carries the explicit hypothesis `Admitted` and T2_refused_exactly / T2_counter_exact say precisely when it fails",
+    "failure arms of connectDo/viaDo (getaddrinfo failure, address-family mismatch, ::connect failure) and hard recv/recvfrom errors are not modelled: they create no session and touch no index entry (lifecycle = C02)",
+    "theorems are over sequences of I/O-thread steps (one epoll event each); API calls on other threads only enqueue commands, so their order is the step order; an epoll batch carrying a stale event "
+    "for a closed-and-reused fd number (DESIGN §8 observation) is outside the model",
+    "zero-length datagrams are outside the property (sizes 1..65507): on a listener they are consumed without an event, on a client socket they are delivered as an empty view and end the read loop (modelled as such)",
+    "IPv6 / v4-mapped peers are not exercised by the harness (the model is address-agnostic: Addr = Nat, key() assumed injective)",
+]
 ASSUMPTIONS = [
     "kernel UDP is modelled, not verified: one successful send/sendto = one datagram with these bytes to this destination; a connected socket only returns its peer's datagrams",
     "getnameinfo's numeric host:port key is injective on socket addresses (the model identifies the string key with the address)",
